@@ -23,7 +23,7 @@ ASSUMPTIONS = ['exact answer computed with fractions.Fraction from the generator
                'float results are compared within 4 ulp; integer results exactly, except where the '
                'known finding K10 (float arithmetic before ceil) applies by its input predicate']
 INTERPRETER_FLAGS = [[], ['-O'], [], ['-bb']]
-CONCURRENT = lambda case: case.get('kind') == 'stb'          # pure function of its arguments; see vlib/concurrent.py
+CONCURRENT = lambda case: case.get('kind') != 'twins' and (case.get('kind') == 'stb')          # pure function of its arguments; see vlib/concurrent.py
 SHARDS = {'quick': 4, 'thorough': 16}
 
 IEC_PREFIXES = ['K', 'Ki', 'M', 'Mi', 'G', 'Gi', 'T', 'Ti', 'P', 'Pi', 'E', 'Ei',
@@ -125,7 +125,23 @@ def ulp_close(got, exact, ulps=4):
     return abs(Fraction(got) - exact) <= Fraction(tol)
 
 
+def TWIN_FUNCS():
+    from oslo_utils import strutils
+    return {'string_to_bytes_IEC': lambda v: strutils.string_to_bytes(v, 'IEC', True),
+            'string_to_bytes_SI': lambda v: strutils.string_to_bytes(v, 'SI', False),
+            'string_to_bytes_mixed': lambda v: strutils.string_to_bytes(v, 'mixed', True)}
+
+
+TWIN_TEXT_FUNCS = ['string_to_bytes_IEC', 'string_to_bytes_SI', 'string_to_bytes_mixed']
+TWIN_TEXTS = ['1KB', '1kB', '5Mib', '4Gb', '10B', '1KiB', 'xyz', '3kib', '7MB', '2Tbit', '1.5GiB', '12b']
+TWIN_NUM_FUNCS = ()
+TWIN_NUMBERS = ()
+
+
 def _evaluate_plain(ctx, case):
+    if case.get('kind') == 'twins':
+        from vlib import twins as _tw
+        return _tw.evaluate_case(ctx, case, TWIN_FUNCS())
     from oslo_utils import strutils
     from vlib import callstyle
     strutils = callstyle.proxy(strutils)
@@ -135,7 +151,7 @@ def _evaluate_plain(ctx, case):
             'sign', 'mag', 'prefix', 'unit', 'system', 'return_int'))
         text = sign + mag + prefix + unit
         ok_mag = mag in MAGS_OK or case.get('mag_ok')
-        ok = (ok_mag and unit in UNITS and system in SYSTEMS and
+        ok = (ok_mag and sign in SIGNS and unit in UNITS and system in SYSTEMS and
               prefix in ALL_PREFIXES and admissible(prefix, system))
         try:
             got = strutils.string_to_bytes(text, unit_system=system, return_int=rint)
@@ -235,7 +251,8 @@ def _evaluate_plain(ctx, case):
 
 
 from vlib import envmodes  # noqa: E402
-evaluate = envmodes.with_modes(_evaluate_plain, lazy=lambda case: True, warn=lambda case: case.get('kind') == 'stb')
+evaluate = envmodes.with_modes(_evaluate_plain, lazy=lambda case: True, warn=lambda case: case.get('kind') == 'stb',
+                               digits=lambda case: True, share_digits=7)
 
 
 def qemu_cases(rng, n):
@@ -286,6 +303,18 @@ def qemu_cases(rng, n):
             u, e = rng.choice(long_units)
             m = rng.choice([1, 3, 64, 1000])
             out.append(dict(field=field, spelling='%d %s' % (m, u), want=m * 1024 ** e, cls='int space unit'))
+    # a bare byte count comes back as itself, however large (image sizes beyond 2**53 bytes are sparse files, and the
+    # 64-bit extremes are what a damaged header announces); magnitudes far below one with a unit letter
+    for i in range(max(12, n // 40)):
+        field = fields[i % 3]
+        v = rng.choice([2 ** 53 + 1, 2 ** 63 - 1, 2 ** 64 - 1, 2 ** 64 + 1, rng.getrandbits(rng.randrange(54, 90)) | 1,
+                        10 ** rng.randrange(16, 25) + rng.randrange(1, 1000)])
+        out.append(dict(field=field, spelling=str(v), want=v, cls='plain-int-beyond-2**53'))
+        u, e = rng.choice(units[1:])
+        m = rng.choice(['0.00001', '0.000001', '0.00005', '0.0000152587890625', '0.00009765625', '0.000030517578125'])
+        ex = Fraction(m) * 1024 ** e
+        out.append(dict(field=field, spelling='%s%s%s' % (m, rng.choice(['', ' ']), u), want=math.ceil(ex),
+                        k10=not _is_double(Fraction(m)) or not _is_double(ex), cls='tiny-decimal+letter'))
     for c in out:
         c['kind'] = 'qemu'
     return out
@@ -304,7 +333,32 @@ def HAMMER(ctx):
                     lambda t=text, s=system, r=rint: strutils.string_to_bytes(t, unit_system=s, return_int=r)))
     return out
 
+def _lookalikes():
+    """ASCII character -> code points that are not it but normalise (NFKC) or case-fold to it.  Decimal digits of other
+    scripts (category Nd, which the pinned grammar's \\d and float() admit) are left out: DONT-CARE."""
+    import sys
+    import unicodedata
+    out = {}
+    wanted = set('kKMGTPEZYRQiBbt+-.0123456789')
+    for cp in range(0x80, sys.maxunicode + 1):
+        ch = chr(cp)
+        if unicodedata.category(ch) in ('Nd', 'Cs', 'Cn'):
+            continue
+        n = unicodedata.normalize('NFKC', ch)
+        for cand in (n, ch.casefold(), ch.lower(), ch.upper()):
+            if len(cand) == 1 and cand in wanted:
+                out.setdefault(cand, []).append(ch)
+                break
+    return out
+
+
 def run(ctx):
+    # ---- the same characters / the same number handed over as other objects, in several orders (vlib/twins.py)
+    from vlib import twins as _tw
+    for _i, _case in enumerate(_tw.make_cases(ctx.rng('twins'), ctx.pick(160, 8000), TWIN_TEXT_FUNCS, TWIN_TEXTS,
+                                              TWIN_NUM_FUNCS, TWIN_NUMBERS)):
+        if ctx.mine(_i):
+            evaluate(ctx, _case)
     idx = 0
 
     def emit(case):
@@ -397,6 +451,34 @@ def run(ctx):
                 for rint in (True, False):
                     emit(dict(kind='stb', sign=rh.choice(['', '-']), mag=mag, mag_ok=True, prefix=prefix, unit=unit,
                               system=system, return_int=rint))
+    # look-alikes: an admitted text in which one character (or every letter) is replaced by a code point that merely
+    # normalises (NFKC) or case-folds to it - full-width forms, KELVIN SIGN, mathematical letters, superscript digits,
+    # the squared-unit symbols.  None of them is a prefix, unit, sign or digit of any unit system.
+    alike = _lookalikes()
+    ra = ctx.rng('alike')
+    for i in range(ctx.pick(1500, 40000)):
+        prefix, unit, system = ra.choice(ALL_PREFIXES[1:]), ra.choice(UNITS), ra.choice(SYSTEMS)
+        if not admissible(prefix, system):
+            continue
+        parts = {'sign': ra.choice(SIGNS), 'mag': ra.choice(['1', '3', '1.5', '12', '0.5', '2']), 'prefix': prefix, 'unit': unit}
+        which = ra.choice(['prefix', 'prefix', 'unit', 'unit', 'sign', 'mag', 'all-letters'])
+        orig = dict(parts)
+        for part in (['prefix', 'unit'] if which == 'all-letters' else [which]):
+            chars = list(parts[part])
+            idxs = [j for j, ch in enumerate(chars) if ch in alike]
+            if not idxs:
+                continue
+            for j in (idxs if which == 'all-letters' else [ra.choice(idxs)]):
+                chars[j] = ra.choice(alike[chars[j]])
+            parts[part] = ''.join(chars)
+        if parts == orig:
+            continue
+        emit(dict(kind='stb', system=system, return_int=ra.random() < 0.5, look_alike=which,
+                  mag_ok=parts['mag'] == orig['mag'], **parts))
+    for sym in ('\u3385', '\u3386', '\u3387', '\u33d4', '\u338f', '\u212a', '\uff2b\uff22', '\uff4b\uff22', '\u338b'):
+        for system in SYSTEMS:
+            emit(dict(kind='stb', sign='', mag='1', prefix=sym, unit='', system=system, return_int=True, look_alike='symbol'))
+            emit(dict(kind='stb', sign='', mag='1', prefix=sym, unit='B', system=system, return_int=False, look_alike='symbol'))
     for c in qemu_cases(ctx.rng('qemu'), ctx.pick(3000, 600000)):
         emit(c)
     rj = ctx.rng('qemu-json')
